@@ -16,11 +16,6 @@ set_option linter.unusedSectionVars false
 
 variable {α : Type} [Inhabited α] [Field α] [LinearOrder α] [IsStrictOrderedRing α]
 
-theorem head_eq_lget (l : List α) (hne : l ≠ []) : l.head hne = lget l 0 := by
-  cases l with
-  | nil => exact absurd rfl hne
-  | cons a t => simp [lget]
-
 /-- **Sample (fixed) node times are unchanged**, whatever the number of iterations and intervals, and
 the time vector keeps its length. -/
 theorem samples_untouched (cast : Nat → α) (lik : List (α × α)) (edges : List Edge) (fixed : List Bool)
@@ -77,15 +72,15 @@ valid for the unchanged edge table. -/
 theorem rescale_step_strict (ob rb : List α) (h : pwlPre ob rb = true) (hne : ob ≠ []) (x y : α)
     (hx : ob.head hne ≤ x) (hxy : x < y) (hy : y ≤ ob.getLast hne) : pwlAt ob rb x < pwlAt ob rb y := by
   rw [C25.pwl_interpolant ob rb h hne x hx, C25.pwl_interpolant ob rb h hne y (le_trans hx hxy.le)]
-  have hzne := C25.zip_ne ob rb h hne
+  have hzne := zip_ne ob rb h hne
   have hlast : ((ob.zip rb).getLast hzne).1 = ob.getLast hne := by
     have : ((ob.zip rb).map (·.1)).getLast (by simpa using hzne) = ((ob.zip rb).getLast hzne).1 :=
       List.getLast_map _
     rw [← this]
     congr 1
-    exact C25.zip_fst ob rb h
-  exact pwlRec_strictMono _ x y (C25.zip_incZ ob rb h) hzne
-    (by rw [C25.zip_head ob rb h hne]; exact hx) hxy (by rw [hlast]; exact hy)
+    exact zip_fst ob rb h
+  exact pwlRec_strictMono _ x y (zip_incZ ob rb h) hzne
+    (by rw [zip_head ob rb h hne]; exact hx) hxy (by rw [hlast]; exact hy)
 
 /-- **`mutation_midpoint`**: a mutation on an edge gets the midpoint of the edge's end times — between
 child and parent, strictly inside when the parent is strictly older; a mutation above a root
